@@ -70,59 +70,73 @@ pub fn run_cases<F>(cases: Vec<Value>, timeout: Duration, f: F) -> Vec<Value>
 where
     F: Fn(&Value) -> Vec<Value> + Send + Sync + 'static,
 {
+    let mut all = Vec::new();
+    run_cases_from(cases, 0, timeout, f, &mut |_, recs| all.extend(recs));
+    all
+}
+
+/// As `run_cases`, starting at case `first`; the observations of case `i` are handed to `sink(i, records)` as soon
+/// as the case is finished, and the next case only starts after `sink` returned (so that an abrupt end of the
+/// process - the library's own panic hook calls process::exit - can be attributed to exactly one case).
+pub fn run_cases_from<F>(cases: Vec<Value>, first: usize, timeout: Duration, f: F, sink: &mut dyn FnMut(usize, Vec<Value>))
+where
+    F: Fn(&Value) -> Vec<Value> + Send + Sync + 'static,
+{
     let cases = Arc::new(cases);
     let f = Arc::new(f);
     let n = cases.len();
-    let mut out = Vec::new();
-    let mut next = 0usize;
+    let mut next = first;
     let mut hangs = 0usize;
     while next < n {
         if hangs >= 6 {
             // every hung case leaves a spinning thread behind: stop executing, the
             // remaining cases are reported as not run (the judge skips them)
-            for c in cases[next..].iter() {
-                out.push(json!({"st": "notrun", "case": c.clone()}));
+            for (k, c) in cases[next..].iter().enumerate() {
+                sink(next + k, vec![json!({"st": "notrun", "case": c.clone()})]);
             }
             break;
         }
         let (tx, rx) = channel();
+        let (ack_tx, ack_rx) = channel::<()>();
         let cs = cases.clone();
         let ff = f.clone();
         let start = next;
         std::thread::spawn(move || {
             for i in start..cs.len() {
                 let r = guard(|| ff(&cs[i]));
-                if tx.send((i, r)).is_err() {
+                if tx.send((i, r)).is_err() || ack_rx.recv().is_err() {
                     return;
                 }
             }
         });
         loop {
             match rx.recv_timeout(timeout) {
-                Ok((i, Ok(mut recs))) => {
-                    out.append(&mut recs);
+                Ok((i, Ok(recs))) => {
+                    sink(i, recs);
                     next = i + 1;
+                    let _ = ack_tx.send(());
                     if next == n {
                         break;
                     }
                 }
                 Ok((i, Err(msg))) => {
                     // a panic outside a guarded call: still data, but flagged
-                    out.push(json!({"st": format!("harness_panic:{msg}"), "case": cases[i].clone()}));
+                    sink(i, vec![json!({"st": format!("harness_panic:{msg}"), "case": cases[i].clone()})]);
                     next = i + 1;
+                    let _ = ack_tx.send(());
                     if next == n {
                         break;
                     }
                 }
                 Err(RecvTimeoutError::Timeout) => {
-                    out.push(json!({"st": "hang", "case": cases[next].clone()}));
+                    sink(next, vec![json!({"st": "hang", "case": cases[next].clone()})]);
                     hangs += 1;
                     next += 1;
                     break;
                 }
                 Err(RecvTimeoutError::Disconnected) => {
                     if next < n {
-                        out.push(json!({"st": "harness_panic:worker vanished", "case": cases[next].clone()}));
+                        sink(next, vec![json!({"st": "harness_panic:worker vanished", "case": cases[next].clone()})]);
                         next += 1;
                     }
                     break;
@@ -130,7 +144,6 @@ where
             }
         }
     }
-    out
 }
 
 /// Interner: equal strings <=> equal ids (ids start at 1).
